@@ -47,7 +47,7 @@ BAD = {
     'ssh1-truncated': {'proto': 1, 'faults': [['pkm', '*', ['trunc', 30, 'close']]]},
 }
 RANK = [0, 2, 3, 1, 255]
-MODES = {'text': ['-n'], 'json': ['-n', '-j'], 'batch': ['-n', '-b']}
+MODES = {'text': ['-n'], 'json': ['-n', '-j'], 'batch': ['-n', '-b'], 'json-v': ['-n', '-j', '-v'], 'json-indent': ['-n', '-jj'], 'json-indent-v': ['-v', '-jj']}
 _solo = {}
 
 
@@ -90,7 +90,7 @@ def run_list(kinds, mode, threads, choices, gate=True, hosts=None):
 
 
 def split(out, mode):
-    if mode == 'json':
+    if mode.startswith('json'):
         try:
             arr = json.loads(out)
         except ValueError:
@@ -152,7 +152,7 @@ def eval_real(case):
     else:
         OOB = ('[exception] invalid ssh packet (block size)', '[exception] packet checksum CRC32 mismatch.')
         def canon(b):
-            if mode == 'json':
+            if mode.startswith('json'):
                 if isinstance(b, dict) and 'error' in b:
                     b = dict(b, error='\n'.join(l for l in b['error'].split('\n') if l not in OOB))
                 return json.dumps(b, sort_keys=True)
@@ -235,7 +235,7 @@ def eval_case(case):
     OOB = ('[exception] invalid ssh packet (block size)', '[exception] packet checksum CRC32 mismatch.')
 
     def canon(b, strip_oob=False):
-        if mode == 'json':
+        if mode.startswith('json'):
             if strip_oob and isinstance(b, dict) and 'error' in b:
                 b = dict(b, error='\n'.join(l for l in b['error'].split('\n') if l not in OOB))
             return json.dumps(b, sort_keys=True)
@@ -249,7 +249,7 @@ def eval_case(case):
         h2 = sorted(canon(b, True) for b in got)
         packet_err = [k for k in bad if k in ('bad-block-size', 'bad-padding', 'probe-bad-block', 'ssh1-bad-crc')]
         if w2 == h2 and packet_err:
-            fails.append(['packet-error-message-printed-out-of-band-%s' % ('json' if mode == 'json' else 'text'), 'kinds %r mode %s threads %d' % (kinds, mode, threads)])
+            fails.append(['packet-error-message-printed-out-of-band-%s' % ('json' if mode.startswith('json') else 'text'), 'kinds %r mode %s threads %d' % (kinds, mode, threads)])
         else:
             extra = [b for b in have if b not in want][:1]
             missing = [b for b in want if b not in have][:1]
@@ -292,6 +292,18 @@ def run(ctx):
     # two bad targets
     for b1, b2 in (list(itertools.permutations(sorted(BAD), 2)) if not ctx.quick else rng.sample(list(itertools.permutations(sorted(BAD), 2)), 60)):
         cases.append({'kinds': [b1, 'warn', b2], 'mode': rng.choice(['text', 'json']), 'threads': rng.choice([1, 2, 3]), 'choices': [rng.randint(0, 2) for _ in range(20)]})
+    # the JSON array must stay one array under -v and -jj as well
+    for b in sorted(BAD):
+        for mode in ('json-v', 'json-indent', 'json-indent-v'):
+            if not ctx.quick or rng.random() < 0.5:
+                cases.append({'kinds': ['warn', b, 'good'], 'mode': mode, 'threads': rng.choice([1, 3]), 'choices': [rng.randint(0, 2) for _ in range(20)]})
+    # long target lists (the collector loop works through them in any way it likes; the output contract is the same)
+    for n, threads, mode in ((257, 1, 'json'), (300, 32, 'json'), (300, 8, 'text'), (513, 16, 'json'), (64, 64, 'json-indent'), (1025, 32, 'json')) if not ctx.quick else ((257, 4, 'json'), (300, 32, 'text'), (520, 16, 'json')):
+        kinds = ['refused'] * n
+        for j, k in enumerate(('good', 'unresolvable', 'warn', 'early-close', 'fail')):
+            kinds[(j * 97 + 13) % n] = k
+        kinds[n - 1] = 'good' if n % 2 else 'refused'
+        cases.append({'kinds': kinds, 'mode': mode, 'threads': threads, 'choices': None})
     ctx.map(cases)
     ctx.hyp('strat_list', 3000 if ctx.quick else 40000, label=1, shards=16)
     free = [{'kinds': [rng.choice(ALLK) for _ in range(rng.randint(2, 5))] + ['good', 'refused'], 'mode': rng.choice(['text', 'json']), 'threads': rng.choice([2, 3, 5]), 'choices': None} for _ in range(40 if ctx.quick else 600)]
@@ -304,5 +316,5 @@ def run(ctx):
     ctx.map(real + slow, chunk=1)
     ctx.note(traces_validated_against_impl=len(real) + len(slow))
     ctx.note(failure_archetypes=sorted(BAD), healthy_archetypes=sorted(HEALTHY))
-    return ctx.finish('fault_enumeration', 'target lists of length 2-5 mixing 4 healthy archetypes with 16 failure archetypes (unresolvable, refused, connect timeout, silent, early close, close after banner, garbage banner, bad block size, bad padding, truncated KEXINIT, wrong first packet, probe-phase garbage / close / bad block, SSH-1 bad CRC / truncation): every failure archetype in every position of lists of length 2 and 3 (exhaustive), pairs of failures, Hypothesis lists, 1..n threads, text / batch / JSON, harness-owned schedules plus free-running runs; non-trivial = at least one healthy and one failing target',
+    return ctx.finish('fault_enumeration', 'target lists of length 2-5 mixing 4 healthy archetypes with 16 failure archetypes (unresolvable, refused, connect timeout, silent, early close, close after banner, garbage banner, bad block size, bad padding, truncated KEXINIT, wrong first packet, probe-phase garbage / close / bad block, SSH-1 bad CRC / truncation): every failure archetype in every position of lists of length 2 and 3 (exhaustive), pairs of failures, Hypothesis lists, 1..n threads, text / batch / JSON (also with -v and -jj), lists of 257-1025 targets, harness-owned schedules plus free-running runs; non-trivial = at least one healthy and one failing target',
                       assumptions=['block i is attributed to the i-th target to finish (known from the scheduler trace); blocks are compared with fresh single-target -T runs', 'an out-of-range port in the targets file is not a failure archetype of the statement (C18 covers it)'])
